@@ -267,6 +267,7 @@ func TestC20EndToEnd(t *testing.T) {
 		// S0: rune -> state
 		s0 := map[rune]int{}
 		lines := strings.Split(string(tt), "\n")
+		caseOne := regexp.MustCompile(`^\s*case r == (\d+):`)
 		inS0 := false
 		var pending rune = -1
 		for _, l := range lines {
